@@ -111,6 +111,7 @@ type impl struct {
 	log     []hx.Zs // observations made by the running thread during the current step
 	events  chan event
 	arrived map[int64]int // event -> goroutines arrived
+	impatient bool        // something timed out in this history: keep further waits short
 	hs      []*handler
 }
 
@@ -335,7 +336,7 @@ func (im *impl) runnable(t *thread) bool {
 
 // await waits until thread t parks or finishes; goroutines arriving meanwhile join the table.
 func (im *impl) await(t *thread) bool {
-	timer := time.NewTimer(stepTimeout)
+	timer := time.NewTimer(im.patienceOr())
 	defer timer.Stop()
 	for {
 		select {
@@ -348,9 +349,20 @@ func (im *impl) await(t *thread) bool {
 				return true
 			}
 		case <-timer.C:
+			im.impatient = true
 			return false
 		}
 	}
+}
+
+// patienceOr: the full step timeout until something has timed out once in this history; after
+// that the history has already diverged from the model and further waits are kept short, so a
+// wedged bus costs seconds per history and not minutes.
+func (im *impl) patienceOr() time.Duration {
+	if im.impatient {
+		return 40 * time.Millisecond
+	}
+	return stepTimeout
 }
 
 func (im *impl) arrive(t *thread) {
@@ -416,7 +428,7 @@ func (im *impl) sched(k int64) []hx.Zs {
 	}
 	if t.where == "spawned" && was != "spawned" {
 		// wait for the goroutines of the application handlers subscribed when the list was copied
-		deadline := time.Now().Add(stepTimeout)
+		deadline := time.Now().Add(im.patienceOr())
 		want := map[int64]bool{}
 		for _, h := range t.snapApps {
 			want[h] = true
@@ -429,7 +441,11 @@ func (im *impl) sched(k int64) []hx.Zs {
 				}
 			}
 			missing = len(want)
-			if missing == 0 || time.Now().After(deadline) {
+			if missing == 0 {
+				break
+			}
+			if time.Now().After(deadline) {
+				im.impatient = true
 				break
 			}
 			select {
